@@ -526,6 +526,15 @@ fn evaluate(
     for w in &why {
         report.count(&format!("c15.rule_violated.{w}"));
     }
+    if why.len() == 1 {
+        // the only thing wrong with this block is this rule
+        report.count(&format!("c15.sole_rule_violated.{}", why[0]));
+        if c.mode == "resign" {
+            // ... and the seal is valid for the changed block: nothing but
+            // verify_block_fields (and try_from_executed for transactions) can stop it
+            report.count(&format!("c15.sole_rule_violated_and_validly_sealed.{}", why[0]));
+        }
+    }
     if let Obs::Reject(e) = &obs_b {
         let k: String = e.chars().take(40).collect();
         report.count(&format!("c15.verify_block_fields.err.{k}"));
@@ -1384,7 +1393,7 @@ fn c15(args: &Args, report: &Report) {
         .and_then(|s| s.parse().ok())
         .unwrap_or(0);
     let shards = args.by_tier(16usize, 64);
-    let sessions = args.by_tier(3u64, 30);
+    let sessions = args.by_tier(9u64, 24);
     let n_blocks = args.by_tier(10usize, 16);
     if let Some(rp) = read_replay(args) {
         let seed = rp["shard_seed"].as_u64().unwrap_or(0);
@@ -1400,13 +1409,13 @@ fn c15(args: &Args, report: &Report) {
             }
         });
         if selftest == 0 {
-            report.require("c15.valid_blocks", args.by_tier(400, 20_000));
-            report.require("c15.cases", args.by_tier(50_000, 2_000_000));
+            report.require("c15.valid_blocks", args.by_tier(1200, 20_000));
+            report.require("c15.cases", args.by_tier(150_000, 2_500_000));
             for k in ["PoA", "PoAV2-no-overrides", "PoAV2-schedule"] {
                 report.require(&format!("c15.valid_blocks.{k}"), 100);
                 report.require(&format!("c15.config.{k}"), 10_000);
             }
-            report.require("c15.valid_blocks_at_key_change_height", 15);
+            report.require("c15.valid_blocks_at_key_change_height", 60);
             report.require("c15.valid_blocks_da_equal_parent", 100);
             report.require("c15.valid_blocks_time_equal_parent", 100);
             for r in [
@@ -1421,6 +1430,10 @@ fn c15(args: &Args, report: &Report) {
             ] {
                 report.require(&format!("c15.rule_violated.{r}"), 300);
             }
+            for r in ["height_zero", "unknown_parent", "prev_root", "da_height", "time", "transactions"] {
+                report.require(&format!("c15.sole_rule_violated_and_validly_sealed.{r}"), 100);
+            }
+            report.require("c15.sole_rule_violated.application_hash", 1000);
             for k in [
                 "header_changed",
                 "sig_tampered",
